@@ -125,8 +125,10 @@ pub fn injected() -> io::Error {
 
 #[derive(Clone, Debug, Default)]
 pub struct SrcOpts {
-    /// offer `Err` as an alternative at each call (at most one per run; then sticky)
+    /// offer `Err` as an alternative at each call (at most one per run)
     pub faults: bool,
+    /// the injected error is returned once and later calls succeed (default: sticky)
+    pub transient: bool,
     /// stream positions `b` for which sizes ending at b-1, b, b+1 are offered
     pub boundaries: Vec<usize>,
     /// the *default* answer returns at most this many bytes (uniform adversarial schedules)
@@ -213,7 +215,7 @@ impl Read for ScriptedReader {
             let c = self.script.choose(Kind::SrcEof, n);
             if c == 1 {
                 self.script.set_fault();
-                self.failed = true;
+                self.failed = !self.opts.transient;
                 return Err(injected());
             }
             return Ok(0);
@@ -231,7 +233,7 @@ impl Read for ScriptedReader {
             menu[c - 1]
         } else {
             self.script.set_fault();
-            self.failed = true;
+            self.failed = !self.opts.transient;
             return Err(injected());
         };
         buf[..take].copy_from_slice(&self.data[self.pos..self.pos + take]);
@@ -244,6 +246,9 @@ impl Read for ScriptedReader {
 pub struct SinkOpts {
     pub faults: bool,
     pub short_writes: bool,
+    /// the injected error is returned once (the data of that call is not written) and later
+    /// calls succeed (default: sticky)
+    pub transient: bool,
 }
 
 /// A sink whose every `write` and `flush` is a choice point.
@@ -294,7 +299,7 @@ impl Write for ScriptedWriter {
             menu[c - 1]
         } else {
             self.script.set_fault();
-            self.failed = true;
+            self.failed = !self.opts.transient;
             return Err(injected());
         };
         self.out.lock().unwrap().extend_from_slice(&buf[..take]);
@@ -308,7 +313,7 @@ impl Write for ScriptedWriter {
         let c = self.script.choose(Kind::SinkFlush, 1 + fault_ok as u16);
         if c == 1 {
             self.script.set_fault();
-            self.failed = true;
+            self.failed = !self.opts.transient;
             return Err(injected());
         }
         Ok(())
